@@ -48,6 +48,13 @@ ASSUMPTIONS = [
 CONFS = [1e-9, 1e-4, 0.001, 0.0099, 0.05, 0.0999, 0.1, 0.5, 0.9, 0.95, 0.99, 0.999, 1 - 1e-9]
 RESAMPLES = [1, 2, 3, 10, 11, 100, 101, 250, 1000]
 SIZES = [(1, 1), (1, 3), (2, 2), (3, 4), (5, 5), (10, 7), (2, 1)]
+# sample sizes beyond the handful the model uses: both sides of every power of two and of the sizes at which an
+# implementation could plausibly switch storage or algorithm (a cell of bent data has 25 values; Cell.Values is
+# "typically 1-100"), every ordered pair of them, since numerator and denominator sizes may interact
+BIG_SIZES_QUICK = [1, 2, 3, 5, 8, 9, 15, 16, 17, 20, 25, 30, 31, 32, 33, 34, 40, 43, 48, 50, 60, 63, 64, 65, 66, 70, 100,
+                   127, 128, 129, 200, 257]
+# cells of the series replay that receive this many measurements of one record (a large -count)
+BIG_CELLS = [31, 32, 33, 34, 40, 63, 64, 65, 66, 70, 100, 129, 257, 513]
 
 
 def join(chars):
@@ -110,6 +117,24 @@ def run(ctx):
         for pol in ("replace", "combine"):
             cases.append({"kind": "series", "policy": pol, "recs": c["recs"], "expect": c["expect"][pol], "meta": cmeta})
             orders += perms
+    # one set in BIG_EVERY also with records that stand for many measurements (the expectation of the model does
+    # not depend on how many measurements a record stands for): cells filled past 32, 64, 128, 256, 512 values
+    BIG_EVERY = max(23 if q else 7, len(sets) // (700 if q else 3000))
+    nbig = 0
+    for k, c in enumerate(sets):
+        if (k + ctx.seed) % BIG_EVERY:
+            continue
+        n = len(c["recs"])
+        if n > 4 and nbig % 3:
+            continue
+        big = BIG_CELLS[nbig % len(BIG_CELLS)]
+        if big > 300 and n > 3:
+            big = BIG_CELLS[(nbig // 2) % 9]
+        nbig += 1
+        for pol in ("replace", "combine"):
+            cases.append({"kind": "series", "policy": pol, "recs": c["recs"], "expect": c["expect"][pol], "meta": cmeta, "big": big})
+            orders += math.factorial(n) if n <= 4 else 40
+    ctx.cov["sets_replayed_with_large_cells"] = nbig
     ctx.cov["input_sets"] = len(sets)
     ctx.cov["add_orders_replayed"] = orders
     ctx.cov["allcomparisonseries_calls"] = orders * 4
@@ -142,11 +167,27 @@ def run(ctx):
                     scases.append({"kind": "summ", "nnum": nn, "nden": nd, "conf": conf, "n": n,
                                    "salt": salt * 3 + (salt + rep + ctx.seed) % 3 + 1000 * ctx.seed})
     ctx.add_samples([scases[len(scases) // 2]], 1)
-    ctx.replay("series", scases, "AddSummaries relations (auxiliary)")
+    # size sweep: every ordered pair of sizes, three sample shapes whose attainable range is tight (numerator and
+    # denominator on different scales, constant samples - all three numbers must then equal a/b -, narrow samples)
+    sizes = BIG_SIZES_QUICK if q else sorted(set(list(range(1, 71)) + BIG_SIZES_QUICK))
+    nsweep = 0
+    for nn in sizes:
+        for nd in sizes:
+            for shape in (1, 2, 3):
+                salt += 1
+                nsweep += 1
+                big = nn + nd > 300
+                scases.append({"kind": "summ", "nnum": nn, "nden": nd, "shape": shape,
+                               "conf": CONFS[(salt + ctx.seed) % len(CONFS)],
+                               "n": ([25, 10, 100] if big else [25, 10, 100, 101, 1000, 3])[(salt // 3 + ctx.seed) % (3 if big else 6)],
+                               "salt": salt * 3 + 1000 * ctx.seed})
+    ctx.replay("series", scases, "AddSummaries relations (auxiliary)", timeout=3000)
     ctx.cov["auxiliary"] = {
         "what": "bootstrap summaries (AddSummaries): reproducible for the same samples and across add orders, low <= centre <= high, "
                 "all three within [min num / max den, max num / min den]; the resampling and percentile arithmetic are outside the model",
         "cases": len(scases), "confidence_levels": CONFS, "resample_counts": RESAMPLES, "sample_sizes": SIZES,
+        "size_sweep": {"sizes_each_side": sizes, "pairs": len(sizes) ** 2, "shapes": 3, "cases": nsweep,
+                       "also": "every case a third time with AllComparisonSeries called between the adds"},
         "also": "AddSummaries(0.95, 25) on the samples of every replayed set after its first and last add order",
     }
     ctx.cov["distinct_nontrivial"] = nontriv
